@@ -146,7 +146,8 @@ class C19(Check):
     rule = ('cases = item lists of length 0-4 over ~95 literal and non-literal fragments (as keys and as values), presented as '
             'mapping, pair list and key<sep>value strings, separators = : == ->, parse_keys on/off; exhaustive for every '
             '(key fragment, value fragment) pair in each shape, sampled for longer lists; plus missing-separator strings, '
-            'non-string pass-through values and custom parsers that raise; non-trivial = the case contains a non-literal, a value '
+            'non-string pass-through values and custom parsers that raise (Exception subclasses, a BaseException subclass, StopIteration), '
+            'one-shot item iterables and reentrant calls; non-trivial = the case contains a non-literal, a value '
             'containing the separator, a duplicate key or a tripwire reference; distinct = distinct cases')
 
     def setup(self):
